@@ -21,6 +21,7 @@ func registerExtra(e *Engine) {
 	registerRegexp(e)
 	registerABI(e)
 	registerABIJSON(e)
+	registerEthTx(e)
 	registerCrypto(e)
 }
 
